@@ -281,7 +281,7 @@ def run(tier):
         # BugHist prints the offending history; it must be evaluated before ReplayConsistent
         txt = open(cfg).read().replace("INVARIANT ReplayConsistent", "INVARIANT BugHist\nINVARIANT ReplayConsistent", 1)
         open(cfg, "w").write(txt)
-        return bug, V.tlc(PID, "MC_ChainState", cfg, workers=1, timeout=600, coverage=False, tag="bug_" + bug, xmx="2g")
+        return bug, V.tlc(PID, "MC_ChainState", cfg, workers=1, timeout=1700, coverage=False, tag="bug_" + bug, xmx="2g")
 
     nrand = 4 if tier == "quick" else 24
     rjobs = []
